@@ -68,6 +68,8 @@ def case_st(draw):
         s = {"variant": variant, "tracks": tracks, "spt": spt, "fill": {"kind": "rand", "seed": draw(st.integers(0, 99))},
              "volumes": [vol]}
     two = variant != "opus" and draw(st.integers(0, 3)) == 0
+    if two and draw(st.integers(0, 2)) == 0:
+        two = "blank"            # the second side of the interleaved image carries no catalogue at all
     return {"surface": s, "two_sided": two, "seedB": draw(st.integers(0, 10 ** 6)),
             "fake": draw(st.sampled_from(["bad-total", "bad-total-small", "no-volumes", "track-beyond", "spt-ok-only"]))}
 
@@ -167,6 +169,11 @@ class C13(CheckBase):
                      "volumes": [{"label": None, "title": b"SIDE1", "cycle": 3, "boot": 0,
                                   "total": s["volumes"][0]["total"], "cats": [[_ent(b"S1", 2, 700, 4)]]}]}
             o = disc.build_surface(other)
+            if case["two_sided"] == "blank":
+                o = bytearray(disc.expand({"kind": "rand", "seed": 77}, len(o)))
+                o[256 + 5] = 0xFF          # not a multiple of 8: certainly not a catalogue
+                o = bytes(o)
+                v.classes.append("two-sided-blank-side-1")
             fileA = containers.interleaved(imgA, o, spt)
             fileB = containers.interleaved(imgB, o, spt)
             ext = "ddd" if dd else "dsd"
